@@ -641,7 +641,16 @@ fn corrupt_iccma(rng: &mut Rng, inst: &IccmaInst) -> (Vec<String>, String, &'sta
             // an empty line before some content line (header included)
             let pos = rng.below(lines.len());
             lines.insert(pos, String::new());
-            (lines, "content_after_blank".into(), "err")
+            // half of the time one or two comment lines sit between the blank line and the content:
+            // a comment must not make the reader forget the blank line
+            if rng.chance(1, 2) {
+                for _ in 0..rng.range(1, 2) {
+                    lines.insert(pos + 1, COMMENTS[rng.below(COMMENTS.len())].to_string());
+                }
+                (lines, "content_after_blank_and_comment".into(), "err")
+            } else {
+                (lines, "content_after_blank".into(), "err")
+            }
         }
         9 => {
             // second preamble in the middle: read as an attack line with 3 words
